@@ -107,6 +107,13 @@ func main() {
 			pev[i] = &me.BaseEvent
 		}
 		var evals, accepted, boundary int64
+		// the next epoch's group is derived from the current one while the current one is still in use (a built
+		// group is read-only: the checks must keep judging membership by the current group)
+		if nb := vIn.Builder(); true {
+			nb.Set(creators[0], 0)
+			nb.Set(8, 1)
+			_ = nb.Build()
+		}
 		// ONE checker object over a reader whose answers change between calls (a node keeps its checkers across
 		// epoch changes): its verdicts must always follow the reader's current answer
 		rd := &reader{vIn, 0}
